@@ -9,6 +9,10 @@ add_decrease_effect on InstantaneousAction, DurativeAction and Problem, ActionIn
 Coq recomputes with the model which calls raise, the sizes of the stored collections after every call and the
 complete stored content at the end.  Independently of the model, the property is evaluated on the implementation
 (every stored value compatible/constant by a Python re-statement of the rule, nothing changed by a rejected call).
+Numeric targets also include bounds that are not small integers (1/10, 1/3, 2/3, python floats -0.3 / 0.1, +-2^53) and
+every bounded numeric type is crossed, through every entry point, with the values ADJACENT to its own bounds (the bound,
+exact Fractions missing it by 1e-10 / 1e-20 / 2^-60 on either side, the nearest floats, the neighbouring integers --
+2^53+1 included); model and oracle compare these exactly, as rationals, with the bounds the caller declared.
 """
 import json
 from fractions import Fraction
@@ -74,7 +78,7 @@ class World:
     @staticmethod
     def boundary_values(bounds):
         """Values adjacent to each declared bound, on both sides: the bound itself, exact Fractions with large denominators
-        that miss it by 1e-7, 1e-10, 1e-20 and 2^-60 (inside and outside), the nearest python float and its two neighbours
+        that miss it by 1e-10, 1e-20 and 2^-60 (inside and outside), the nearest python float and its two neighbours
         (floats are generally not exactly the bound), and for an integer bound the integers next to it (for +-2^53 these
         are integers no float represents).  Python values exactly as a user would pass them."""
         import math
@@ -83,7 +87,7 @@ class World:
             if b is None:
                 continue
             vals = [b if b.denominator != 1 else int(b)]
-            for d in (Fraction(1, 10 ** 7), Fraction(1, 10 ** 10), Fraction(1, 10 ** 20), Fraction(1, 2 ** 60)):
+            for d in (Fraction(1, 10 ** 10), Fraction(1, 10 ** 20), Fraction(1, 2 ** 60)):
                 vals += [b - d, b + d]
             fl = float(b)
             vals += [fl, math.nextafter(fl, -math.inf), math.nextafter(fl, math.inf)]
